@@ -255,6 +255,7 @@ def _s2(program, model, res):
         res.ok("C06-S2", "merged ExtendNode guarded by partition/order/reverse/windowing of both nodes and try_to_merge_ops",
                {"required": required})
     _s2_order_sensitive(ep, g, d, merged, res)
+    _s2_partition_symmetric(ep, g, d, merged, res)
     # "same windowing": what is compared with self.windowed_situation must be the windowed-ness the new step would have as a node of its
     # own, i.e. it depends on the new ops *and* on partition_by / order_by (partition_by=1 forces a window without any window function)
     for nd in g.stmt_nodes(("stmt", "test")):
@@ -281,6 +282,84 @@ def _s2(program, model, res):
 
 
 ORDER_INSENSITIVE = {"set", "frozenset", "sorted", "len", "Counter", "OrderedSet"}
+
+
+def partition_merge_rule(program, res):
+    """the partition part of S2 alone (reused by C09: each row's value is computed over that row's own group)"""
+    ep = program.method("view_representations", "ViewRepresentation", "extend_parsed_", inherited=False)
+    res.analysed(ep)
+    g = cfgmod.build(ep.node)
+    d = depsmod.Deps(g, ep.params())
+    merged = None
+    for r in g.returns():
+        v = r.stmt.value
+        if isinstance(v, ast.Call) and dotted_name(v.func) == "ExtendNode":
+            kws = {kw.arg: kw.value for kw in v.keywords}
+            if kws.get("source") is not None and unparse(kws["source"]) != "self":
+                merged = r
+    if merged is None:
+        raise AnalysisError("extend_parsed_: merged ExtendNode construction not found")
+    _s2_partition_symmetric(ep, g, d, merged, res)
+
+
+def _s2_partition_symmetric(ep, g, d, merged, res):
+    """two extends may share a node only if they have the *same* partition: the comparison of partition_by with self.partition_by that guards the
+    merge has to be an equality (or a difference taken both ways).  A containment test (one difference, <=, issubset) lets a coarser window be merged
+    into a finer one, whose window functions are then computed over the wrong groups."""
+    exprs = [b.cond for (b, _lab) in g.lexical_guards(merged)]
+    names = {n.id for e in exprs for n in ast.walk(e) if isinstance(n, ast.Name)}
+    changed = True
+    taken = set()
+    while changed:
+        changed = False
+        for n in g.stmt_nodes(("stmt",)):
+            st = n.stmt
+            if isinstance(st, ast.Assign) and len(st.targets) == 1 and isinstance(st.targets[0], ast.Name) \
+                    and st.targets[0].id in names and id(st) not in taken and g.dominates(n.id, merged.id):
+                taken.add(id(st))
+                exprs.append(st.value)
+                new = {x.id for x in ast.walk(st.value) if isinstance(x, ast.Name)}
+                if not new <= names:
+                    names |= new
+                    changed = True
+
+    def side(e):
+        txt = unparse(e)
+        has_self = "self.partition_by" in txt
+        has_new = any(isinstance(x, ast.Name) and x.id == "partition_by" for x in ast.walk(e))
+        return ("self" if has_self else "") + ("new" if has_new else "")
+
+    equal = one_sided = None
+    diffs = set()
+    for e in exprs:
+        for c in ast.walk(e):
+            if isinstance(c, ast.Compare) and len(c.ops) == 1:
+                l, r = side(c.left), side(c.comparators[0])
+                if {l, r} == {"self", "new"}:
+                    if isinstance(c.ops[0], ast.Eq):
+                        equal = c
+                    elif isinstance(c.ops[0], (ast.LtE, ast.Lt, ast.GtE, ast.Gt)):
+                        one_sided = c
+            if isinstance(c, ast.BinOp) and isinstance(c.op, ast.Sub):
+                l, r = side(c.left), side(c.right)
+                if {l, r} == {"self", "new"}:
+                    diffs.add(l)
+                    if one_sided is None:
+                        one_sided = c
+            if isinstance(c, ast.Call) and isinstance(c.func, ast.Attribute) and c.func.attr in ("issubset", "issuperset", "difference") and c.args:
+                l, r = side(c.func.value), side(c.args[0])
+                if {l, r} == {"self", "new"}:
+                    if c.func.attr == "difference":
+                        diffs.add(l)
+                    one_sided = one_sided or c
+    if equal is not None or diffs == {"self", "new"}:
+        res.ok("C06-S2", "the merge compares the two partitions for equality")
+    elif one_sided is not None:
+        res.fail_at("C06-S2", ep, "merge-partition-containment",
+                    f"the merge is guarded by `{unparse(one_sided)[:70]}`, a containment of one partition in the other: extend(…, partition_by=['g']) followed by "
+                    f"extend(…, partition_by=1) becomes one node with the coarser partition, and the first step's per-group sums come out as grand totals on every executor", one_sided)
+    else:
+        res.fail_at("C06-S2", ep, "merge-partition-not-compared", "no comparison of partition_by with self.partition_by guards the merged ExtendNode", merged.stmt)
 
 
 def _s2_order_sensitive(ep, g, d, merged, res):
